@@ -119,7 +119,7 @@ func toVal(o slip.Object, depth int) string {
 		}
 		return "(VList " + common.GList(items) + ")"
 	case *slip.Lambda:
-		return "(VClo [] [] [])"
+		return "(VClo [] [] [] [])"
 	case *slip.FuncInfo:
 		return "(VFn " + gstr(strings.ToLower(t.Name)) + ")"
 	}
@@ -157,7 +157,7 @@ func errTerm(o common.Outcome) string {
 		return "EUndefFun"
 	case o.Err == "type-error":
 		return "EType"
-	case strings.Contains(o.Msg, "Too many arguments"):
+	case strings.Contains(o.Msg, "Too many arguments"), strings.Contains(o.Msg, "Too few arguments"):
 		return "EArity"
 	}
 	return "EMalformed"
